@@ -349,6 +349,11 @@ func (proxy *PgProxy) handleClientPacket(ctx context.Context, packet *PacketHand
 			return false, err
 		}
 		cursor, err := proxy.protocolState.registry.CursorByName(executePacket.portal)
+		if err == ErrCursorNotFound {
+			// a portal we did not register (see registerCursor): forward the packet, the database answers
+			logger.WithError(err).Warningln("No cursor for Execute packet")
+			return false, nil
+		}
 		if err != nil {
 			return false, err
 		}
@@ -1076,12 +1081,14 @@ func (proxy *PgProxy) handleQueryDataPacket(ctx context.Context, packet *PacketH
 func (proxy *PgProxy) registerPreparedStatement(packet *PacketHandler, preparedStatement *ParsePacket, logger *log.Entry) error {
 	name := preparedStatement.Name()
 	queryText := preparedStatement.QueryString()
-	// This should be always successful since the database filters invalid queries.
 	query, err := postgresql.ParseQuery(queryText)
 	if err != nil {
+		// The database has not seen the statement yet: let it through as is and leave the answer (an error, most
+		// likely) to the database, as the simple query protocol does. The name must not keep referring to a
+		// statement registered earlier.
 		logger.WithField(logging.FieldKeyEventCode, logging.EventCodeErrorGeneral).
-			WithError(err).Errorln("Can't parse SQL from Parse packet")
-		return err
+			WithError(err).Warningln("Can't parse SQL from Parse packet, statement is not registered")
+		return proxy.registry.DeleteStatement(name)
 	}
 
 	var stmt *pg_query.Node
@@ -1146,6 +1153,13 @@ func (proxy *PgProxy) registerCursor(bindPacket *BindPacket, logger *log.Entry) 
 	// There should be a statement with the specified name, the database confirmed it.
 	statementName := bindPacket.StatementName()
 	preparedStatement, err := proxy.registry.StatementByName(statementName)
+	if err == ErrStatementNotFound {
+		// A statement we could not register (or a client error): let the packet through, the database answers.
+		// The portal name must not keep referring to a portal registered earlier.
+		logger.WithField(logging.FieldKeyEventCode, logging.EventCodeErrorGeneral).
+			WithError(err).Warningln("No prepared statement for Bind packet, cursor is not registered")
+		return proxy.registry.DeleteCursor(bindPacket.PortalName())
+	}
 	if err != nil {
 		logger.WithField(logging.FieldKeyEventCode, logging.EventCodeErrorGeneral).
 			WithError(err).Errorln("Failed to add cursor")
